@@ -163,3 +163,74 @@ Example C06_selection_keeps_parallel_arcs :
   Some [[(0, 1); (1, 2); (2, 3); (3, 4)]; [(0, 1); (1, 3); (3, 4)]]%N.
 Proof. exact select_keeps_parallel_arcs. Qed.
 Print Assumptions C06_selection_keeps_parallel_arcs.
+
+(* ---- audit (second half): ALL hypotheses of C06_selected_sequences_are_pairwise_incompatible hold together on a graph WITH a cycle
+   (slE: 0 -> 1 <-> 2, both 1 and 2 -> 3 -> 4), derived from the verified condensation checker, and the selection there has two
+   members (the parallel arcs (1,3), (2,3) over one condensation arc of multiplicity 2), so the conclusion is about a real pair ---- *)
+From FP Require ReachProofs2 SafetyProofs1 SafetyProofs2.
+Example C06_selection_hypotheses_hold_on_the_cycle_graph :
+  let cm := Reach.c_map slC in let cn := Reach.c_topo slC in let cE := Reach.c_edges slC in
+  let cores := [(1, 3); (2, 3)]%N in let seqs := map (DomAlg.dom_sequence slE 0%N 4%N) cores in
+  let B := [WalkWidth.hmap slE cm (1, 3)%N] in
+  (forall u v, In u (nodes_of slE) -> In v (nodes_of slE) -> (cm u = cm v <-> conn slE u v /\ conn slE v u)) /\
+  (forall u v, In (u, v) slE -> cm u <> cm v -> In (cm u, cm v) cE) /\
+  (forall e, In e slE -> In (cm (fst e)) cn /\ In (cm (snd e)) cn) /\
+  NoDup slE /\ NoDup cores /\ incl cores slE /\
+  (forall e, In e slE -> (exists w, Safety.st_walk slE 0%N (fst e) w) /\ (exists w, Safety.st_walk slE (snd e) 4%N w)) /\
+  condensation_antichain slE cm cn cE B /\
+  select slE cm seqs B = Some [[(0, 1); (1, 2); (2, 3); (3, 4)]; [(0, 1); (1, 3); (3, 4)]]%N /\
+  Safety.incompatible slE 0%N 4%N [(0, 1); (1, 2); (2, 3); (3, 4)]%N [(0, 1); (1, 3); (3, 4)]%N.
+Proof.
+  intros cm cn cE cores seqs B.
+  assert (Hok : Reach.cond_ok slV slE slC = true) by (vm_compute; reflexivity).
+  pose proof (ReachProofs2.cond_ok_spec slV slE slC Hok) as S.
+  assert (HV : forall e, In e slE -> In (fst e) slV /\ In (snd e) slV) by (intros [u v] He; exact (ReachProofs2.cs_edgesV slV slE slC S u v He)).
+  assert (HN : forall u, In u (nodes_of slE) -> In u slV).
+  { intros u Hu. unfold nodes_of in Hu. rewrite nodup_In in Hu. apply in_app_or in Hu.
+    destruct Hu as [Hu|Hu]; apply in_map_iff in Hu; destruct Hu as (e & <- & He); apply (HV e He). }
+  assert (H1 : forall u v, In u (nodes_of slE) -> In v (nodes_of slE) -> (cm u = cm v <-> conn slE u v /\ conn slE v u)).
+  { intros u v Hu Hv. unfold cm. rewrite (ReachProofs2.cs_scc slV slE slC S u v (HN u Hu) (HN v Hv)). rewrite <- !conn_reach. tauto. }
+  assert (H2 : forall u v, In (u, v) slE -> cm u <> cm v -> In (cm u, cm v) cE) by (intros u v He Hne; exact (ReachProofs2.cs_edge_fwd slV slE slC S u v He Hne)).
+  assert (H3 : forall e, In e slE -> In (cm (fst e)) cn /\ In (cm (snd e)) cn).
+  { intros e He. destruct (HV e He) as [Ha Hb]. split; apply (ReachProofs2.cs_topo_all slV slE slC S); assumption. }
+  assert (H4 : NoDup slE) by (apply ReachProofs1.nodupE_NoDup; vm_compute; reflexivity).
+  assert (H5 : NoDup cores) by (repeat constructor; cbn; intuition discriminate).
+  assert (H6 : incl cores slE) by (intros e [<-|[<-|[]]]; cbn; tauto).
+  assert (H7 : forall e, In e slE -> (exists w, Safety.st_walk slE 0%N (fst e) w) /\ (exists w, Safety.st_walk slE (snd e) 4%N w)).
+  { intros e He. cbn in He. repeat (destruct He as [<-|He]; [split; apply SafetyProofs2.reachb_correct; vm_compute; reflexivity|]). destruct He. }
+  assert (H8 : condensation_antichain slE cm cn cE B) by (intros b1 b2 p [<-|[]] [<-|[]] Hne; contradiction).
+  assert (H9 : select slE cm seqs B = Some [[(0, 1); (1, 2); (2, 3); (3, 4)]; [(0, 1); (1, 3); (3, 4)]]%N) by (vm_compute; reflexivity).
+  repeat (split; [assumption|]).
+  exact (C06_selected_sequences_are_pairwise_incompatible slE 0%N 4%N cm cn cE seqs H1 H2 H3 H4 cores eq_refl H5 H6 H7 B H8 _ H9 0%nat 1%nat
+           ltac:(cbn; lia) ltac:(cbn; lia) ltac:(discriminate)).
+Qed.
+Print Assumptions C06_selection_hypotheses_hold_on_the_cycle_graph.
+
+(* ---- audit (second half): part B with TWO different members of an antichain of the expanded condensation, on a graph with a cycle:
+   0 -> 1 <-> 2, 1 -> 3 -> 5 and the by-pass 0 -> 4 -> 5.  The members over (1,3) and over (0,4) are unordered in the expanded
+   condensation (decided with the verified closure), so sequences through them are incompatible. ---- *)
+Example C06_two_members_of_a_condensation_antichain_on_a_cycle_graph :
+  let cm := Reach.c_map brC in
+  let B := [WalkWidth.hmap brE cm (1, 3)%N; WalkWidth.hmap brE cm (0, 4)%N] in
+  Reach.cond_ok brV brE brC = true /\ WalkWidth.hmap brE cm (1, 3)%N <> WalkWidth.hmap brE cm (0, 4)%N /\
+  condensation_antichain brE cm (Reach.c_topo brC) (Reach.c_edges brC) B /\
+  Safety.incompatible brE 0%N 5%N [(0, 1); (1, 3)]%N [(0, 4); (4, 5)]%N.
+Proof.
+  intros cm B.
+  assert (Hok : Reach.cond_ok brV brE brC = true) by (vm_compute; reflexivity).
+  assert (Hne : WalkWidth.hmap brE cm (1, 3)%N <> WalkWidth.hmap brE cm (0, 4)%N) by (vm_compute; discriminate).
+  assert (HB : condensation_antichain brE cm (Reach.c_topo brC) (Reach.c_edges brC) B).
+  { apply (SlotSelect.unordered_in_wrapper_is_condensation_antichain brE cm (Reach.c_topo brC) (Reach.c_edges brC)
+             (WalkWidth.hedges brE cm (Reach.c_topo brC) (Reach.c_edges brC))); [intros x Hx; exact Hx|].
+    intros b1 b2 [<-|[<-|[]]] [<-|[<-|[]]]; apply SlotSelect.not_conn_by_closure; vm_compute; tauto. }
+  split; [exact Hok|]. split; [exact Hne|]. split; [exact HB|].
+  apply (C06_sequences_over_a_condensation_antichain_are_incompatible brV brE brC 0%N 5%N B (1, 3)%N (0, 4)%N _ _ Hok HB).
+  - cbn; tauto.
+  - cbn; tauto.
+  - left. reflexivity.
+  - right. left. reflexivity.
+  - left. exact Hne.
+  - right. left. reflexivity.
+  - left. reflexivity.
+Qed.
+Print Assumptions C06_two_members_of_a_condensation_antichain_on_a_cycle_graph.
